@@ -156,8 +156,21 @@ pub fn run(tier: Tier) -> i32 {
             text.push('\n');
         }
         let fault_line = SHIFT + pos + 1;
-        for l in f.lines {
+        for (li, l) in f.lines.iter().enumerate() {
             text.push_str(l);
+            // the faulty line may carry text beyond ASCII (a comment, or the garbage itself): the
+            // two variants put two-byte characters on odd and on even byte offsets
+            if li == 0 {
+                let accents = "\u{e9}".repeat(40);
+                let v = (pi + pos + fi) % 5;
+                if f.name == "syntax-error" && v > 0 {
+                    // garbage beyond ASCII right behind the first characters
+                    text.truncate(text.len() - l.len());
+                    text.push_str(&format!("!!{}{} \u{2014} {}", " ".repeat(v - 1), accents, accents));
+                } else if v > 0 {
+                    text.push_str(&format!("{};{} \u{b5}s", " ".repeat(v), accents));
+                }
+            }
             text.push('\n');
         }
         for l in &src_lines[*pos..] {
